@@ -711,13 +711,25 @@ class Enumerator:
                 res.append(o)
         return res
 
+    def _havoc(self, body):
+        """Variables assigned inside a loop body: what was known about them before the loop does not
+        hold in later iterations."""
+        names = set()
+        for nd in walk(body):
+            if nd.get("k") in ("Assign", "AssignOp"):
+                names.add(self.c(nd["l"]))
+        return Ev("havoc", sorted(names), node=None)
+
     def x_Loop(self, e):
-        outs = self.expr(e["body"])
+        hv = self._havoc(e["body"])
+        outs = [PathOut([hv] + o.events, o.exit, o.val, o.label, o.valnode) for o in self.expr(e["body"])]
         return self._loop_exit(outs, e.get("label"))
 
     def x_While(self, e):
         res = []
-        for evs, truth in self.cond_alts(e["cond"]):
+        hv = self._havoc(e["body"])
+        for evs0, truth in self.cond_alts(e["cond"]):
+            evs = [hv] + evs0
             if not truth:
                 res.append(PathOut(evs, "fall", ""))
                 continue
@@ -740,9 +752,10 @@ class Enumerator:
                 res.append(io)
                 continue
             res.append(PathOut(io.events + [Ev("for-skip", p, io.val, node=e)], "fall", ""))
+            hv = self._havoc(e["body"])
             for o in self.expr(e["body"]):
                 self._budget()
-                evs = io.events + [Ev("for-iter", p, io.val, node=e)] + o.events
+                evs = io.events + [hv, Ev("for-iter", p, io.val, node=e)] + o.events
                 if o.exit == "break" and (o.label is None or o.label == e.get("label")):
                     res.append(PathOut(evs, "fall", ""))
                 elif o.exit in ("fall", "continue"):
